@@ -156,12 +156,16 @@ Eff(fs, c, obs, gran) ==
                        !.inos[c.ino].mt = ObsField(obs, c.ino, "mt", @)]
         ELSE fs
     ELSE IF c.call \in {"write", "copy", "truncate"} THEN
-        LET i == Target(fs, c) IN
-        IF i \in DOMAIN fs.inos THEN
-            [fs EXCEPT !.inos[i].c = ObsField(obs, i, "c", [kind |-> "unknown"]),
+        LET i == Target(fs, c)
+            \* copy_file_range / sendfile read their source: its atime may advance
+            src == IF c.call = "copy" /\ Has(c, "ino2") THEN c.ino2 ELSE "NONE"
+            f1 == IF src \in DOMAIN fs.inos THEN [fs EXCEPT !.inos[src].at = ObsField(obs, src, "at", @)] ELSE fs
+        IN
+        IF i \in DOMAIN f1.inos THEN
+            [f1 EXCEPT !.inos[i].c = ObsField(obs, i, "c", [kind |-> "unknown"]),
                        !.inos[i].mt = ObsField(obs, i, "mt", @),
                        !.inos[i].at = ObsField(obs, i, "at", @)]
-        ELSE fs
+        ELSE f1
     ELSE IF c.call = "read" THEN
         LET i == Target(fs, c) IN
         IF i \in DOMAIN fs.inos THEN [fs EXCEPT !.inos[i].at = ObsField(obs, i, "at", @)] ELSE fs
